@@ -56,6 +56,36 @@ pub fn compact(depth: usize) -> Value {
             }
         }
     }
+    // a PARTIAL compaction: two RowSets too big for the compactor's size budget (never selected) carry delete vectors; three small
+    // RowSets with higher ids are merged by the pass. What the pass retires must not take the delete vectors of the RowSets that
+    // stay with it: no query result changes, before and after a reopen
+    {
+        let (block, target) = (4096usize, 16usize << 10);
+        let rows: Vec<String> = (0..6000).map(|i| format!("({i},{})", i % 10)).collect();
+        let sqls: Vec<String> = vec![
+            "create table p(a int primary key, b int)".into(), format!("insert into p values {}", rows.join(",")),
+            "delete from p where b = 0".into(),
+            "insert into p values (100000, 1)".into(), "insert into p values (100001, 1)".into(), "insert into p values (100002, 1)".into(),
+            "select count(*) from p where b = 0".into(), "select count(*) from p".into(),
+            "select count(*) from p where b = 0".into(), "select count(*) from p".into(),
+        ];
+        let (reopen, compact) = (vec![8usize], vec![6usize]);
+        tried += sqls.len() as u64;
+        let short: Vec<String> = sqls.iter().map(|q| if q.len() > 200 { format!("{} ... ({} characters)", &q[..120], q.len()) } else { q.clone() }).collect();
+        let input = |idx: usize| json!({"engine": format!("disk engine without background tasks, target_block_size={block}, target_rowset_size={target}"),
+            "statements": &short[..=idx], "reopen_before_statement": reopen, "compaction_pass_before_statement": compact, "failing_statement": short.get(idx)});
+        let outs = match h::sql_session_manual(block, target, &sqls, &reopen, &compact) {
+            Ok(o) => o,
+            Err(err) => return json!({"found": true, "tried": tried, "input": input(sqls.len() - 1), "observed": format!("the session failed: {err}")}),
+        };
+        if let Ok(d) = &outs[2] { if *d != vec![vec!["600".to_string()]] { return json!({"found": true, "tried": tried, "input": input(2), "observed": format!("DELETE reported {d:?}, 600 rows have b = 0")}); } }
+        for (idx, want) in [(6usize, "0"), (7, "5403"), (8, "0"), (9, "5403")] {
+            match &outs[idx] {
+                Ok(got) if *got == vec![vec![want.to_string()]] => {}
+                other => return json!({"found": true, "tried": tried, "input": input(idx), "observed": format!("expected [[{want}]]; got {other:?}")}),
+            }
+        }
+    }
     let want_sessions = match depth { 0 | 1 => 150, 2 => 1500, _ => usize::MAX };
     let stride = (seqs.len() / want_sessions).max(1);
     // target RowSet sizes: everything fits into one RowSet / only some of the table's RowSets fit together (a pass then merges
